@@ -375,8 +375,12 @@ pub fn cache_async(attr: TokenStream, item: TokenStream) -> TokenStream {
                 cachelito_core::InvalidationRegistry::global().register_callback(
                     #fn_name_str,
                     move || {
+                        // Hold the order lock while emptying the map: inserts run entirely
+                        // under it, so none can land between the two clears and leave an
+                        // entry the eviction queue does not know about.
+                        let mut order = #order_ident.lock();
                         #cache_ident.clear();
-                        #order_ident.lock().clear();
+                        order.clear();
                     }
                 );
             });
